@@ -289,6 +289,7 @@ while the latter only writes to the file, persisting in the form of \
 
 
 pub static EXPECT_LIST: &'static str = "Expected a list!";
+pub static EXPECT_NOT_EMPTY_LIST: &'static str = "Expected a list with at least one argument. Remove the parentheses to select everything.";
 pub static EXPECT_IDENT: &'static str = "Expected an identifier. Please pass only a single identifier without any namespace or path.";
 
 pub static NESTED_FILE: &'static str  = "Nested `file` option!"; 
